@@ -498,6 +498,26 @@ func (tst *tsTable) dispatchAllMergesUpTo(threshold uint64, fastCh, slowCh chan 
 				break
 			}
 		}
+		// The selection above ran on a snapshot taken before this lock. A lane worker (or a
+		// finalize round) may have merged and un-pinned some of these parts in between: they
+		// are then neither in flight nor part of the current snapshot any more. Un-pinning
+		// happens after the introduction is applied and needs this lock, so a snapshot taken
+		// here is guaranteed to lack every part that was merged and released meanwhile.
+		if !conflict {
+			if fresh := tst.currentSnapshot(); fresh != nil {
+				live := make(map[*partWrapper]struct{}, len(fresh.parts))
+				for _, pw := range fresh.parts {
+					live[pw] = struct{}{}
+				}
+				for _, pw := range dst {
+					if _, ok := live[pw]; !ok {
+						conflict = true
+						break
+					}
+				}
+				fresh.decRef()
+			}
+		}
 		if conflict {
 			tst.inFlightMu.Unlock()
 			for _, pw := range dst {
